@@ -18,10 +18,12 @@ open ForML
 def RunErr.name : RunErr → String
   | .fuel => "fuel" | .unbound => "unbound" | .arity => "arity" | .noAssets => "noAssets"
   | .unknownNode => "unknownNode" | .commitSize => "commitSize"
+  | .assetRefused => "assetRefused" | .assetCrashed => "assetCrashed"
 
 def RunErr.ofName? : String → Option RunErr
   | "fuel" => some .fuel | "unbound" => some .unbound | "arity" => some .arity
   | "noAssets" => some .noAssets | "unknownNode" => some .unknownNode | "commitSize" => some .commitSize
+  | "assetRefused" => some .assetRefused | "assetCrashed" => some .assetCrashed
   | _ => none
 
 partial def Val.toSexp : Val → Sexp
